@@ -269,6 +269,10 @@ class Validator:
     # ---- statements
     def stmts(self, bs: List[ast.stmt], as_: List[ast.stmt], declared_globals: Optional[set] = None, ctx: str = "body"):
         declared_globals = declared_globals if declared_globals is not None else set()
+        # `global` is a declaration with function-wide effect, not a statement with a position: the declared sets are compared
+        # per function scope in globals_pair(); here the declarations are skipped
+        bs = [x for x in bs if not isinstance(x, ast.Global)]
+        as_ = [x for x in as_ if not isinstance(x, ast.Global)]
         i = j = 0
         terminated = False
         while i < len(bs):
@@ -288,27 +292,6 @@ class Validator:
                     a is not None and ast.dump(a) == ast.dump(b)):
                 self.ob("drop-bare-constant-or-name", True, f"{ctx}", b, None)
                 i += 1
-                continue
-            if isinstance(b, ast.Global):
-                new = [n for n in b.names if n not in declared_globals]
-                declared_globals.update(b.names)
-                if not new:
-                    if a is not None and isinstance(a, ast.Global) and set(a.names) <= set(b.names) and ast.dump(a) == ast.dump(b):
-                        i += 1
-                        j += 1
-                        continue
-                    self.ob("global-dedupe", True, f"{ctx}: all names already declared", b, None)
-                    i += 1
-                    continue
-                if isinstance(a, ast.Global) and set(a.names) == set(new):
-                    if set(a.names) != set(b.names):
-                        self.ob("global-dedupe", True, f"{ctx}: redundant names removed", b, a)
-                    i += 1
-                    j += 1
-                    continue
-                self.ob("global-dedupe", False, f"{ctx}: global declaration changed to {getattr(a, 'names', None)}", b, a)
-                i += 1
-                j += 1 if isinstance(a, ast.Global) else 0
                 continue
             if isinstance(b, ast.If) and (a is None or not isinstance(a, ast.If) or not self._same_if(b, a)):
                 # maybe removed entirely: both branches empty after optimisation
@@ -380,6 +363,7 @@ class Validator:
         if tb in (ast.FunctionDef, ast.AsyncFunctionDef):
             if ast.dump(b.args) != ast.dump(a.args) or b.name != a.name:
                 self.ob("function-signature", False, ctx, b, a)
+            self.globals_pair(b, a, ctx + f"/def {b.name}")
             for db, da in zip(b.decorator_list, a.decorator_list):
                 self.expr_pair(db, da, ctx + "/decorator")
             self.stmts(b.body, a.body, set(), ctx + f"/def {b.name}")
@@ -430,6 +414,88 @@ class Validator:
                         self.ob("field-changed", False, f"{ctx}/{tb.__name__}.{fb}", b, a)
             elif vb != va:
                 self.ob("field-changed", False, f"{ctx}/{tb.__name__}.{fb}", b, a)
+
+    @staticmethod
+    def _own_scope(fn):
+        """nodes of a function's own scope: nested function / class bodies are scopes of their own"""
+        todo = list(fn.body)
+        while todo:
+            n = todo.pop()
+            yield n
+            if isinstance(n, (ast.FunctionDef, ast.AsyncFunctionDef, ast.ClassDef)):
+                # the name itself is bound in this scope; decorators / defaults are evaluated here, the body is not
+                todo.extend(n.decorator_list)
+                if not isinstance(n, ast.ClassDef):
+                    todo.extend(d for d in n.args.defaults + n.args.kw_defaults if d is not None)
+                continue
+            if isinstance(n, ast.Lambda):
+                continue
+            todo.extend(ast.iter_child_nodes(n))
+
+    def _scope_facts(self, fn):
+        declared, referenced = set(), set()
+        first_ref, decl_pos = {}, {}
+        for n in self._own_scope(fn):
+            if isinstance(n, ast.Global):
+                declared.update(n.names)
+                for nm in n.names:
+                    decl_pos[nm] = min(decl_pos.get(nm, (1 << 30, 0)), (getattr(n, "lineno", 0), getattr(n, "col_offset", 0)))
+            elif isinstance(n, ast.Name):
+                referenced.add(n.id)
+            elif isinstance(n, (ast.FunctionDef, ast.AsyncFunctionDef, ast.ClassDef)):
+                referenced.add(n.name)
+        return declared, referenced
+
+    @staticmethod
+    def _global_before_use(fn) -> bool:
+        """Python's syntactic rule: within the function's own scope no use of a name precedes its `global` declaration
+        (document order of the statement list)"""
+        seen, ok = set(), [True]
+
+        def walk(stmts):
+            for st in stmts:
+                if isinstance(st, ast.Global):
+                    if any(nm in seen for nm in st.names):
+                        ok[0] = False
+                    continue
+                visit(st)
+
+        def visit(n):
+            if isinstance(n, ast.Name):
+                seen.add(n.id)
+                return
+            if isinstance(n, (ast.FunctionDef, ast.AsyncFunctionDef, ast.ClassDef)):
+                seen.add(n.name)
+                for d in n.decorator_list:
+                    visit(d)
+                return
+            if isinstance(n, ast.Lambda):
+                return
+            for f, v in ast.iter_fields(n):
+                if isinstance(v, list) and v and isinstance(v[0], ast.stmt):
+                    walk(v)
+                elif isinstance(v, list):
+                    for x in v:
+                        if isinstance(x, ast.AST):
+                            visit(x)
+                elif isinstance(v, ast.AST):
+                    visit(v)
+        walk(fn.body)
+        return ok[0]
+
+    def globals_pair(self, b, a, ctx: str):
+        """`global` declarations of one function scope, before and after: a name may gain or lose its declaration only if the
+        function's own scope never mentions it; and the output must still satisfy 'declared before used'."""
+        db, _ = self._scope_facts(b)
+        da, ra = self._scope_facts(a)
+        changed = sorted(n for n in (db ^ da) if n in ra)
+        if changed:
+            self.ob("global-scope", False, f"{ctx}: names {changed} are {'no longer' if changed[0] in db else 'newly'} declared global but still used in the function", b, a)
+        elif ast.dump(ast.Module(body=[x for x in ast.walk(b) if isinstance(x, ast.Global)], type_ignores=[])) != \
+                ast.dump(ast.Module(body=[x for x in ast.walk(a) if isinstance(x, ast.Global)], type_ignores=[])):
+            self.ob("global-declarations", True, f"{ctx}: same names declared global in this scope ({sorted(da)}); declarations merged / moved to the top", b, a)
+        if self._global_before_use(b) and not self._global_before_use(a):
+            self.ob("invalid-ast", False, f"{ctx}: a name is used before its global declaration in the optimized function (SyntaxError)", b, a)
 
     def _delitem_stmt(self, b: ast.Expr, a: ast.Delete, ctx: str) -> bool:
         """`operator.delitem(x, i)` as a statement (value discarded)  vs  `del x[i]`: same effects in the same order?"""
